@@ -133,4 +133,45 @@ def itemComplete (db : List Hash) (it : Item) : Bool :=
 
 def cacheComplete (db : List Hash) (c : Cache) : Bool := c.lru.all (itemComplete db)
 
+
+/-! ### the same clauses on the name as queried (any letter case)
+
+DNS names are case-insensitive: what is disclosed for `WwW.ExamPle.oRg` are
+the prefixes of `www.example.org` and its parents, and it is blocked exactly
+when a full hash of one of those is returned. -/
+
+structure HostIn where
+  setts : HostSetts
+  sufS : Bytes
+  sufP : Bytes
+  dbS : List Hash
+  dbP : List Hash
+  host : Bytes          -- as queried
+  H : Bytes → Hash
+  psOf : Bytes → Bytes × Bool
+
+/-- the verdict the property prescribes for the queried name -/
+def hostVerdict (i : HostIn) : HostReason :=
+  let name := lower i.host
+  let ps := (i.psOf name).1
+  let icann := (i.psOf name).2
+  if i.host = [] then .notFiltered
+  else if i.setts.protection && i.setts.safeBrowsing && freshVerdict i.H i.dbS ps icann name then .safeBrowsing
+  else if i.setts.protection && i.setts.parental && freshVerdict i.H i.dbP ps icann name then .parental
+  else .notFiltered
+
+def hostSpecOK (i : HostIn) (o : HostOut) : Bool :=
+  let name := lower i.host
+  let ps := (i.psOf name).1
+  let icann := (i.psOf name).2
+  !psOK ps icann name ||
+  (privacyOK i.H i.sufS ps icann name o.sbQuestion &&
+   privacyOK i.H i.sufP ps icann name o.pcQuestion &&
+   -- nothing is sent for a service that is switched off
+   ((i.setts.protection && i.setts.safeBrowsing) || o.sbQuestion.isNone) &&
+   ((i.setts.protection && i.setts.parental) || o.pcQuestion.isNone) &&
+   o.reason == hostVerdict i)
+
+def plainScript : Script := ⟨false, false, 0, false, []⟩
+
 end AGH.C19
